@@ -230,6 +230,15 @@ pub mod probes {
         }
         Ok(())
     }
+    static RELEASE: std::sync::atomic::AtomicBool = std::sync::atomic::AtomicBool::new(false);
+    pub fn hold_reset() { RELEASE.store(false, Ordering::SeqCst); }
+    pub fn release() { RELEASE.store(true, Ordering::SeqCst); }
+    /// a branch that waits for something only the harness provides (after the caller has returned): models a sibling
+    /// blocked on what a panicking branch would have produced
+    pub fn hold() {
+        let deadline = Instant::now() + Duration::from_secs(60);
+        while !RELEASE.load(Ordering::SeqCst) && Instant::now() < deadline { std::thread::sleep(Duration::from_millis(1)); }
+    }
     /// runs `f` on a helper thread and waits up to 25 s: None = the caller would have been left blocked
     pub fn with_watchdog<T: Send + 'static>(f: impl FnOnce() -> T + Send + 'static) -> Option<T> {
         let (tx, rx) = std::sync::mpsc::channel();
